@@ -279,6 +279,27 @@ func RunCancelCase(seed int64, o CancelOpts) *HistResult {
 				return hit
 			})
 		}
+		if o.Variant == CvDeliveredAtRunEntry {
+			// the hook must be in place before the job exists (the victim may be the first task)
+			if b == len(order) {
+				b = len(order) - 1
+			}
+			victim := order[b]
+			var once sync.Once
+			hook := func(job, taskName string) {
+				if taskName != victim {
+					return
+				}
+				once.Do(func() {
+					// the scheduler has decided to launch this task; the cancel is acknowledged and completely delivered before
+					// the runner gets to look at the task
+					cls := sys.Cancel(0, job)
+					q.journal("cancel J1 at the runner entry of %s -> %s", victim, cls)
+					waitFor("cancel delivered", func() bool { return countKind(core.KCancelExit, job) >= 1 })
+				})
+			}
+			beforeRun.Store(&hook)
+		}
 		target = schedule("tgt")
 		if target == "" {
 			return res
@@ -428,24 +449,6 @@ func RunCancelCase(seed int64, o CancelOpts) *HistResult {
 				expectCanceled = true
 			}
 		case CvDeliveredAtRunEntry:
-			if b == len(order) {
-				b = len(order) - 1
-			}
-			victim := order[b]
-			var once sync.Once
-			hook := func(job, taskName string) {
-				if job != target || taskName != victim {
-					return
-				}
-				once.Do(func() {
-					// the scheduler has decided to launch this task; the cancel is acknowledged and completely delivered before
-					// the runner gets to look at the task
-					cls := sys.Cancel(0, target)
-					q.journal("cancel J1 at the runner entry of %s -> %s", victim, cls)
-					waitFor("cancel delivered", func() bool { return countKind(core.KCancelExit, target) >= 1 })
-				})
-			}
-			beforeRun.Store(&hook)
 			if !o.Real {
 				for _, n := range order[:b] {
 					// (the victim may be launched together with earlier tasks if the graph allows it: then the cancel is already out)
